@@ -261,3 +261,64 @@ def check_pair(rec):
         v = SilentOracle(s['case'], s['env']).value(s['out'])
         res.append((h, canon(val_to_json(v, world))))
     return res[0][0] == res[1][0] and res[0][1] != res[1][1]
+
+
+# ---------------------------------------------------------------- explicit Function(...) bindings (pipeline level)
+
+def run_explicit_functions(seed, n):
+    """Transform fields written as `Function(f, 'a', kw=Silent('b'), other='c')`: positional and keyword bindings, some wrapped in
+    Silent, the keywords written down in a random (not alphabetical) order.  For every input of the field: changing it changes the
+    node hash iff its binding is not Silent (C05; and C07 for the Silent ones), and the value always follows the inputs."""
+    import inspect
+    from .pipeline import Builder
+    from .sym import SymWorld
+    from .codec import val_to_json, hash_to_json
+    problems, cases = [], 0
+    for c in range(n):
+        rng = random.Random(seed * 8191 + c)
+        world = SymWorld()
+        b = Builder(world)
+        names = ['a', 'b', 'c', 'd', 'e'][:rng.randint(2, 5)]
+        n_pos = rng.randint(0, len(names) - 1)
+        pos, kw_src = names[:n_pos], names[n_pos:]
+        kw_names = [f'k{j}' for j in range(len(kw_src))]
+        params = [f'p{j}' for j in range(n_pos)] + kw_names
+        kwbind = dict(zip(kw_names, kw_src))
+        order = list(kw_names)
+        rng.shuffle(order)
+        kwsilent = [k for k in kw_names if rng.random() < 0.4]
+        possilent = [i for i in range(n_pos) if rng.random() < 0.25]
+        silent_inputs = {kwbind[k] for k in kwsilent} | {pos[i] for i in possilent}
+        d = {'k': 'transform', 'cls': f'EF{c}', 'params': {}, 'cargs': {}, 'defaults': {},
+             'fields': {'out': {'args': params, 'f': f'EF{c}.out', 'posbind': pos, 'kwbind': kwbind, 'kworder': order,
+                                'kwsilent': kwsilent, 'possilent': possilent}}}
+        try:
+            layer = b.layer(d)
+            fn = layer._compile('out')
+            sig = list(inspect.signature(fn).parameters)
+            base = {p_: 10 + i for i, p_ in enumerate(sig)}
+
+            def obs(env):
+                h = fn.get_hash(*[env[p_] for p_ in sig])[0]
+                return canon(hash_to_json(h.value, world)), canon(val_to_json(fn(**env), world))
+            h0, v0 = obs(base)
+            cases += 1
+            for name in sig:
+                env = dict(base, **{name: base[name] + 100})
+                h1, v1 = obs(env)
+                want_v = canon({'app': [f'EF{c}.out', [env[a] for a in pos] + [env[kwbind[k]] for k in kw_names], [], []]})
+                if v1 != want_v:
+                    problems.append({'desc': d, 'msg': f'Function(...) with bindings {pos} {kwbind} written as {order}: the value for {env} is {v1[:150]}, expected {want_v[:150]}'})
+                    break
+                if name not in silent_inputs and h1 == h0:
+                    problems.append({'desc': d, 'kind': 'collision',
+                                     'msg': f'Function(f, {pos}, keywords {order} -> {kwbind}, Silent: {sorted(silent_inputs)}): changing the non-silent input '
+                                            f'{name!r} did not change the node hash (two different computations, one hash)'})
+                    break
+                if name in silent_inputs and h1 != h0:
+                    problems.append({'desc': d, 'kind': 'silent-changes-hash',
+                                     'msg': f'Function(...) with Silent inputs {sorted(silent_inputs)}: changing the Silent input {name!r} changed the node hash'})
+                    break
+        except Exception as e:
+            problems.append({'desc': d, 'msg': 'explicit Function scenario raised ' + type(e).__name__ + ': ' + str(e)[:200]})
+    return cases, problems
